@@ -36,7 +36,8 @@ search       unsound  real bounds of a multi-column file -> real manifest (sibli
                         delete writes from the DataFiles it read back (not yet looked into); field ids = whatever Schema accepts
                e2e      scan(filter) with pruning vs the same scan with pruning disabled, real tables (single appends,
                         multi-append transactions, partial deletes that rewrite a manifest, retried commits; schemas with whatever
-                        field ids the constructor accepts, incl. a family of same-kind columns under ids that meet as str())
+                        field ids the constructor accepts, incl. a family of same-kind columns under ids that meet as str(); appends
+                        that pass schema= explicitly with the table's columns under re-ordered ids, accepted or refused)
                codec    _decode_bound(_encode_bound(v)) is v, type-faithfully
 """
 from __future__ import annotations
@@ -883,14 +884,28 @@ def e2e_apply_step(table: Any, step: Dict[str, Any]) -> None:
     or several files (one manifest with that many ADDED entries) -- or {"op": "delete", "index": k} -- a transaction deleting the
     k-th data file of the current listing (a partial delete rewrites that file's manifest with EXISTING entries)."""
     if step["op"] == "append":
+        sch = None
+        if step.get("schema_arg"):
+            # the append names its schema explicitly: the table's columns, possibly numbered differently.  Whatever the library
+            # ACCEPTS here is part of the table afterwards; what it refuses (ValueError) leaves the table as it was.
+            from datashard.data_structures import Schema
+            try:
+                sch = Schema(schema_id=1, fields=step["schema_arg"])
+            except ValueError:
+                return
+
         def go() -> None:
-            if len(step["files"]) == 1:
-                table.append_records(step["files"][0])
-            else:
-                with table.new_transaction() as tx:
-                    for recs in step["files"]:
-                        tx.append_data(recs)
-                    tx.commit()
+            try:
+                if len(step["files"]) == 1:
+                    table.append_records(step["files"][0], schema=sch)
+                else:
+                    with table.new_transaction() as tx:
+                        for recs in step["files"]:
+                            tx.append_data(recs, schema=sch)
+                        tx.commit()
+            except ValueError:
+                if sch is None:
+                    raise
         if step.get("retried"):
             _append_once_retried(table, go)
         else:
@@ -932,7 +947,7 @@ def steps_json(steps: List[Dict[str, Any]]) -> List[Dict[str, Any]]:
     out = []
     for st in steps:
         if st["op"] == "append":
-            out.append({"op": "append", "retried": bool(st.get("retried")),
+            out.append({"op": "append", "retried": bool(st.get("retried")), "schema_arg": st.get("schema_arg"),
                         "files": [[{k: val_json(v) for k, v in r.items()} for r in f] for f in st["files"]]})
         else:
             out.append(dict(st))
@@ -943,7 +958,7 @@ def steps_unjson(steps: List[Dict[str, Any]]) -> List[Dict[str, Any]]:
     out = []
     for st in steps:
         if st["op"] == "append":
-            out.append({"op": "append", "retried": bool(st.get("retried")),
+            out.append({"op": "append", "retried": bool(st.get("retried")), "schema_arg": st.get("schema_arg"),
                         "files": [[{k: val_unjson(v) for k, v in r.items()} for r in f] for f in st["files"]]})
         else:
             out.append(dict(st))
@@ -969,6 +984,7 @@ def oracle_e2e(ctx) -> None:
     idtables = 0
     rewrites = 0
     unusable = 0
+    schema_args = 0
     for t in range(ntables):
         twins = False
         idfamily = False
@@ -1034,6 +1050,12 @@ def oracle_e2e(ctx) -> None:
             else:
                 nf = rng.choice([2, 2, 3]) if r < 0.5 else 1     # several files appended by ONE transaction share a manifest
                 step = {"op": "append", "files": [gen_file() for _ in range(nf)], "retried": rng.random() < 0.35}
+                if len(cols) >= 2 and rng.random() < (0.5 if idfamily else 0.15):
+                    # the append passes schema= explicitly: the table's fields as they are, or the same columns under the ids in
+                    # another order (accepted or refused by the library -- either way pruning must not change an answer)
+                    arg_ids = list(ids) if rng.random() < 0.3 else rng.sample(ids, len(ids))
+                    step["schema_arg"] = [dict(f, id=i) for f, i in zip(fields, arg_ids)]
+                    schema_args += 1
                 # (a retried commit rebuilds the manifests from the same in-memory DataFile objects: bounds must survive the second
                 # encoding exactly like the first)
                 retried += 1 if step["retried"] else 0
@@ -1149,6 +1171,7 @@ def oracle_e2e(ctx) -> None:
     ctx.stats["e2e_partial_or_full_deletes"] = deletes
     ctx.stats["e2e_tables_multi_append_then_partial_delete"] = rewrites
     ctx.stats["e2e_field_id_family_tables"] = idtables
+    ctx.stats["e2e_appends_with_explicit_schema_argument"] = schema_args
     ctx.stats["e2e_tables_unreadable_after_accepted_non_int_ids"] = unusable
     ctx.stats["field_ids_non_int_offered_to_Schema"] = ID_STATS["offered_non_int"]
     ctx.stats["field_ids_non_int_accepted_by_Schema"] = ID_STATS["accepted_non_int"]
